@@ -53,6 +53,35 @@ func parsePieces(s string) []int {
 	return out
 }
 
+// chunkSizes lists the write(2) sizes of the fault-free scenario: bufio's fill/flush/bypass rule for kind "wf", one
+// write per piece otherwise.  Used only to place faults and to enumerate fault positions; the expected outputs come
+// from the Lean model.
+func chunkSizes(kind string, ps []int) []int {
+	if kind != "wf" {
+		return append([]int(nil), ps...)
+	}
+	b := bufSize()
+	var out []int
+	buf := 0
+	for _, p := range ps {
+		for p > b-buf {
+			if buf == 0 {
+				out = append(out, p)
+				p = 0
+			} else {
+				p -= b - buf
+				buf = 0
+				out = append(out, b)
+			}
+		}
+		buf += p
+	}
+	if buf > 0 {
+		out = append(out, buf)
+	}
+	return out
+}
+
 func atoi(s string) int {
 	v, err := strconv.Atoi(s)
 	if err != nil {
@@ -176,7 +205,7 @@ var errCB = errors.New("callback failed")
 var errnoNames = map[syscall.Errno]string{
 	syscall.ENOSPC: "ENOSPC", syscall.EIO: "EIO", syscall.EACCES: "EACCES", syscall.EISDIR: "EISDIR",
 	syscall.ENOTEMPTY: "ENOTEMPTY", syscall.EEXIST: "EEXIST", syscall.EBADF: "EBADF", syscall.ENOENT: "ENOENT",
-	syscall.EXDEV: "EXDEV", syscall.EPERM: "EPERM", syscall.EROFS: "EROFS",
+	syscall.EXDEV: "EXDEV", syscall.EFBIG: "EFBIG", syscall.EPERM: "EPERM", syscall.EROFS: "EROFS",
 }
 
 // resCode is the canonical form of a returned error (no paths).
